@@ -84,6 +84,7 @@ class T2TModel(object):
         self.on_state_change = lambda: None
         self.reads = []              # (sector, page) of every answered READ since clear_logs()
         self.writes = []             # (sector, page, data) of every acknowledged WRITE
+        self.write_cmds = []         # (sector, page, acknowledged) of every WRITE command the tag received
         self.naks = 0
         self.unknown = 0
         self.power_cycles = 0
@@ -97,7 +98,7 @@ class T2TModel(object):
         return m
 
     def clear_logs(self):
-        self.reads, self.writes = [], []
+        self.reads, self.writes, self.write_cmds = [], [], []
 
     def power_cycle(self):
         self.power_cycles += 1
@@ -243,7 +244,10 @@ class T2TModel(object):
         if c == 0x30 and len(data) == 2:
             return self._cmd_read(data[1])
         if c == 0xA2 and len(data) == 6:
-            return self._cmd_write(data[1], data[2:6])
+            sector = self.sector
+            rsp = self._cmd_write(data[1], data[2:6])
+            self.write_cmds.append((sector, data[1], rsp == ACK))
+            return rsp
         if c == 0xC2 and data == b"\xC2\xFF" and self.nsectors > 1:
             self.sector_pending = True
             return ACK
